@@ -17,13 +17,15 @@ CHECKS = {
              "Covered: Gamma (Marsaglia-Tsang: proposal, v_cbrt guard, squeeze with its constant 0.0331, exact log test, returned v; d = shape - 1/3, "
              "c = 1/sqrt(9d); the shape<1 boost u^(1/shape) with shape+1), Normal / from_zscore, LogNormal, Exp, ChiSquared (k = 1 vs Gamma), StudentT, "
              "FisherF, InverseGaussian (Michael-Schucany-Haas root and its selection probability), NormalInverseGaussian, SkewNormal (max/min "
-             "representation incl. the 1/sqrt(2)), Pert. For each function: every comparison is a test of the reference (difference terms identical up to "
+             "representation incl. the 1/sqrt(2)), Pert, Beta (Cheng's BB and BC: all acceptance steps with their constants, the result mapping with the "
+             "switched-parameter flag, and the constants alpha, beta, gamma, delta, kappa1, kappa2 derived in Beta::new on all four parameter orderings), "
+             "Normal::new / from_mean_cv, LogNormal::new / from_mean_cv. For each function: every comparison is a test of the reference (difference terms identical up to "
              "sign), the decision functions agree on every truth assignment of the tests (order of independent tests, `||`, early `continue` are free), every "
              "returned term and every derived constructor constant is identical over the reals. Squeeze constants, signs, exponents and root selections are "
              "what a law test at one parameter point per family cannot pin down; here they hold for every parameter value.",
         design_ref="DESIGN.md 5/C01 and 11.8",
-        note="NOT decided: that the reference algorithms have the documented law (cited theorems, trusted), tails/rounding/f32 accuracy, Beta (Cheng BB/BC not "
-             "transcribed) and therefore Pert's inner variate, the ziggurat primitives (C06) and the single-draw transforms (C13). The reference decision lists were "
+        note="NOT decided: that the reference algorithms have the documented law (cited theorems, trusted), tails/rounding/f32 accuracy, "
+             "the ziggurat primitives (C06) and the single-draw transforms (C13). The reference decision lists were "
              "transcribed by hand from the papers and the crate's documentation (trusted base). An alarm needs a refutation at an exact rational point; anything "
              "the normaliser cannot decide is reported as not decided. A law-preserving change that leaves the cited algorithm (another valid sampler) is reported as a "
              "deviation from the reference — stated as a limit.",
